@@ -744,6 +744,14 @@ class ContextStateTransaction(_TransactionBase):
         if not state_container.is_context_state:
             # prevent this for simplicity reasons
             raise ApiUsageError('Transaction only handles context states!')
+        # same checks as in mk_context_state: without them the commit would fail half way
+        # (mdib version already incremented) or silently replace a state of this transaction.
+        if state_container.Handle in self._state_updates:
+            msg = f'Context State {state_container.Handle} already in updated set!'
+            raise ValueError(msg)
+        if self._mdib.context_states.handle.get_one(state_container.Handle, allow_none=True) is not None:
+            msg = f'ContextState with handle={state_container.Handle} already exists'
+            raise ValueError(msg)
 
         if state_container.descriptor_container is None:
             descr = self._mdib.descriptions.handle.get_one(state_container.DescriptorHandle)
